@@ -2,12 +2,18 @@ package mast
 
 import (
 	"fmt"
+	"os"
 	"sort"
 	"testing"
 )
 
 // bounds of the exhaustive exploration (stated in the evidence)
 func bDepth() int {
+	// BOUNDED_DEPTH: exploration beyond the registered tiers (not used by ./check)
+	var d int
+	if _, err := fmt.Sscanf(os.Getenv("BOUNDED_DEPTH"), "%d", &d); err == nil && d > 0 {
+		return d
+	}
 	if bTier() == "thorough" {
 		return 4
 	}
@@ -208,7 +214,7 @@ func bRandomHistories(t *testing.T, prop string) {
 	seeds := 40
 	steps := 60
 	if bTier() == "thorough" {
-		seeds, steps = 400, 120
+		seeds, steps = bScale(400), 120
 	}
 	univ := 32
 	for seed := 1; seed <= seeds; seed++ {
@@ -472,7 +478,7 @@ func TestBounded_C04(t *testing.T) {
 	// insertion order and by insert-then-delete detours give the same root
 	seeds := 30
 	if bTier() == "thorough" {
-		seeds = 300
+		seeds = bScale(300)
 	}
 	for seed := 1; seed <= seeds; seed++ {
 		r := &bRand{uint64(seed)*11400714819323198485 + 7}
@@ -646,7 +652,7 @@ func TestBounded_C09(t *testing.T) {
 	// record the number of entries they reach
 	seeds := 10
 	if bTier() == "thorough" {
-		seeds = 60
+		seeds = bScale(60)
 	}
 	cases := 0
 	for seed := 1; seed <= seeds; seed++ {
